@@ -377,7 +377,18 @@ func (cs *clientStream) RecvMsg(m interface{}) error {
 		}
 		err := cs.codec.Unmarshal(msg, m)
 		if err != nil {
-			return status.Error(codes.Internal, fmt.Sprintf("server sent invalid message: %v", err))
+			err = status.Error(codes.Internal, fmt.Sprintf("server sent invalid message: %v", err))
+			// this error ends the call: we won't be reading from the channel
+			// anymore, so we must cancel the context so that doHttpCall doesn't
+			// hang trying to write the next message to the channel
+			cs.rMu.Lock()
+			if cs.rErr == nil {
+				cs.rErr = err
+				cs.done = true
+				cs.cancel()
+			}
+			cs.rMu.Unlock()
+			return err
 		}
 		if !cs.respStream {
 			// We need to query the channel for a second message. If there *is* a
